@@ -25,6 +25,34 @@ def elf_segments(path):
     return segs
 
 
+PACKED_LIB = 101
+_packed = {}
+
+
+def packed_fixture():
+    """a small shared object linked with `-z noseparate-code` (what GNU ld wrote by default for years, and still writes for several targets): the code
+    segment starts at file offset 0 and the data segment begins in the middle of a file page that also holds the end of the code segment, with another
+    difference between address and file offset.  Page-granular mappings of such a file cover (parts of) both segments.  Returns (path, segments) or None"""
+    if "v" not in _packed:
+        _packed["v"] = None
+        d = os.path.join(K.SCRATCH, "c02e_packed_%d" % os.getpid())
+        try:
+            os.makedirs(d, exist_ok=True)
+            src = os.path.join(d, "p.c")
+            open(src, "w").write("int packed_a(int x){return x*3+1;}\nint packed_b(int x){return packed_a(x)^5;}\nint g_data[64]={1,2,3};\n")
+            so = os.path.join(d, "libpacked.so")
+            r = subprocess.run(["gcc", "-shared", "-fPIC", "-O1", "-Wl,-z,noseparate-code", "-o", so, src], capture_output=True, timeout=120)
+            if r.returncode == 0:
+                segs = elf_segments(so)
+                if len(segs) >= 2 and segs[0][1] == 0 and any(s_[0] - s_[1] != segs[0][0] - segs[0][1] for s_ in segs[1:]):
+                    _packed["v"] = (so, segs, os.path.getsize(so))
+                    import atexit
+                    atexit.register(shutil.rmtree, d, True)
+        except Exception:
+            pass
+    return _packed["v"]
+
+
 def gen_history(rng):
     recs = []
     t = ORIGIN + 10
@@ -83,6 +111,16 @@ def gen_history(rng):
                     recs.append(["mmap", pid, tick(True), start, length, pgoff, name])
                 else:
                     recs.append(["mmap", pid, tick(True), start, length, pgoff, "absent:%d" % lib])
+            elif packed_fixture() and rng.chance(1, 2):
+                # the packed shared object: its code segment's pages as the loader maps them, or the whole file in one executable mapping - either
+                # way the mapped file range holds the start of the data segment too; the code segment (the first one found) is the reference
+                so, psegs, fsize = packed_fixture()
+                svma, off, size = psegs[0]
+                bias = 0x7E0000000000 + 0x1000 * rng.below(256)
+                start = bias + (svma & ~0xFFF)
+                length = ((size + (svma & 0xFFF) + 0xFFF) & ~0xFFF) if rng.chance(1, 2) else ((fsize + 0xFFF) & ~0xFFF)
+                pgoff = off & ~0xFFF
+                recs.append(["mmap", pid, tick(True), start, length, pgoff, "packed"])
             else:
                 # the fixture, mapped like the loader would: the code segment (or a page-aligned part of it) at bias + vaddr
                 svma, off, size = xseg
@@ -166,7 +204,7 @@ def to_perf(recs):
             out.append(P.exit_(r[1], r[1], r[1], r[1], r[2]))
             last = r[2]
         elif k == "mmap":
-            path = FIXTURE if r[6] == "fixture" else _absent_path(int(r[6].split(":")[1]))
+            path = FIXTURE if r[6] == "fixture" else packed_fixture()[0] if r[6] == "packed" else _absent_path(int(r[6].split(":")[1]))
             out.append(P.mmap2(r[1], r[1], r[3], r[4], r[5], path, r[2]))
             last = r[2]
         else:
@@ -202,7 +240,7 @@ def observed(profile):
                 else:
                     lp = libs[rt["lib"][r]]["path"]
                     m = re.fullmatch(r"/nonexistent/verif/d(\d)/lib(\d)\.so", lp)
-                    lib = FIXTURE_LIB if lp.endswith("/example-linux") else (int(m.group(2)) + 3 * int(m.group(1))) if m else 999
+                    lib = FIXTURE_LIB if lp.endswith("/example-linux") else PACKED_LIB if lp.endswith("/libpacked.so") else (int(m.group(2)) + 3 * int(m.group(1))) if m else 999
                     fr.append(("lib", lib, ft["address"][f]))
                 i = st["prefix"][i]
             return fr[::-1]
@@ -236,6 +274,8 @@ def coq_records(recs):
                 if segs is None:
                     segs = K.coq_list(["(mkSeg %d %d %d)" % s for s in elf_segments(FIXTURE)])
                 out.append("(MMmap %d %d %d %d %d (Some %s) %d)" % (r[1], r[2], r[3], r[4], r[5], segs, FIXTURE_LIB))
+            elif r[6] == "packed":
+                out.append("(MMmap %d %d %d %d %d (Some %s) %d)" % (r[1], r[2], r[3], r[4], r[5], K.coq_list(["(mkSeg %d %d %d)" % s_ for s_ in packed_fixture()[1]]), PACKED_LIB))
             else:
                 out.append("(MMmap %d %d %d %d %d None %s)" % (r[1], r[2], r[3], r[4], r[5], r[6].split(":")[1]))
         else:
@@ -293,7 +333,7 @@ def evaluate(prop, cases, stats):
         stats["e2e_frames_in_lib"] = stats.get("e2e_frames_in_lib", 0) + sum(1 for _, _, fr in r["obs"] for f in fr if f[0] == "lib")
         stats["e2e_frames_raw"] = stats.get("e2e_frames_raw", 0) + sum(1 for _, _, fr in r["obs"] for f in fr if f[0] == "raw")
         for rec in c["items"]:
-            kk = "e2e_" + rec[0] + ("_fixture" if rec[0] == "mmap" and rec[6] == "fixture" else "")
+            kk = "e2e_" + rec[0] + ("_fixture" if rec[0] == "mmap" and rec[6] == "fixture" else "_packed_fixture" if rec[0] == "mmap" and rec[6] == "packed" else "")
             stats[kk] = stats.get(kk, 0) + 1
         terms.append("(%s, %s)" % (coq_records(c["items"]), coq_observed(r["obs"])))
         idx.append(i)
